@@ -126,7 +126,10 @@ def _body_nodoc(fn):
 
 
 def _lstr(x):
-    return '"' + x.replace("\\", "\\\\").replace('"', '\\"') + '"'
+    """a name as the Lean list of its characters"""
+    if not x.isascii() or not x.isprintable() or "'" in x or "\\" in x:
+        raise py2lean.Untranslatable(f"frame name {x!r} is not plain ASCII")
+    return "[" + ", ".join(f"'{c}'" for c in x) + "]"
 
 
 # ---- (a) Butcher tableaux: nodes as the exact ratios of the floats (so that `step * c` rounds as in Python), weights as
@@ -350,16 +353,16 @@ def extract_frame_names(tree_man, tree_local, tree_frames, tree_orient):
             "/-- the same for `ContinuousMan.__init__` -/\n"
             f"def contCtorUpper : Bool := {b(cont_up)}\n"
             "/-- `ImpulsiveMan.dv`: `if self.frame in (...)` -/\n"
-            f"def impDvTags : List String := {sl(imp_tags)}\n"
+            f"def impDvTags : List (List Char) := {sl(imp_tags)}\n"
             "/-- `ContinuousMan.accel`: `if self.frame in (...)` -/\n"
-            f"def contAccelTags : List String := {sl(cont_tags)}\n"
+            f"def contAccelTags : List (List Char) := {sl(cont_tags)}\n"
             "/-- `to_local`: the `if/elif` chain, `(constant, compared with frame.upper()?, 0 = to_qsw | 1 = to_tnw)`; else `raise ValueError` -/\n"
-            "def toLocalTable : List (String × Bool × Nat) := [" + ", ".join(f"({_lstr(k)}, {b(u)}, {f})" for k, u, f in table) + "]\n"
+            "def toLocalTable : List (List Char × Bool × Nat) := [" + ", ".join(f"({_lstr(k)}, {b(u)}, {f})" for k, u, f in table) + "]\n"
             "/-- `orbit2frame`: `if orientation.upper() not in (...): raise ValueError` -/\n"
-            f"def orbit2frameTags : List String := {sl(o2f_tags)}\n"
+            f"def orbit2frameTags : List (List Char) := {sl(o2f_tags)}\n"
             f"def orbit2frameUpper : Bool := {b(o2f_up)}\n"
             "/-- `KeplerianContinuousMan.__init__`: `kwargs[\"frame\"] = …` -/\n"
-            f"def kepContForcedFrame : String := {_lstr(first.value.value)}\n\n"
+            f"def kepContForcedFrame : List Char := {_lstr(first.value.value)}\n\n"
             "end BeyondVerif.Generated.FrameNames\n")
 
 
